@@ -3054,3 +3054,140 @@ func checkSelectorSeparator(c *Ctx, rule string) {
 	walk(re, false)
 	c.Check(rule, "schema.excludeType|reType capture accepts the separator "+strconvQuote(sep), fi.Decl.Pos(), accepts, "schema.excludeType splits the selector list on %q, but the capture group of reType (%s) cannot match that character: a selector naming several types is not recognised and the whole `[type=…]` suffix is matched as glob text", sep, pattern)
 }
+
+const ruleTextScratchStates = "scratch planner states inherit the plan options: every `state` literal built inside a method of the mysql/postgres planner state (used to compute reverse statements) sets PlanOptions to the receiver's PlanOptions, so the requested qualifier, indentation and mode also govern the reverse statements: a reverse computed without them is not the inverse of the forward statement it is stored with"
+
+func checkScratchStates(c *Ctx, rule string) {
+	for _, pp := range []string{pMysql, pPostgres} {
+		c.AllFuncs(false, func(fi *FuncInfo) {
+			if fi.Pkg.PkgPath != pp || recvName(fi.Decl) != "state" || len(fi.Decl.Recv.List[0].Names) == 0 {
+				return
+			}
+			info := fi.Info()
+			recv := info.ObjectOf(fi.Decl.Recv.List[0].Names[0])
+			n := 0
+			ast.Inspect(fi.Decl.Body, func(m ast.Node) bool {
+				cl, ok := m.(*ast.CompositeLit)
+				if !ok || !typeIs(info.TypeOf(cl), pp, "state") {
+					return true
+				}
+				n++
+				inherits := false
+				for _, e := range cl.Elts {
+					kv, ok := e.(*ast.KeyValueExpr)
+					if !ok {
+						continue
+					}
+					if k, ok := kv.Key.(*ast.Ident); ok && k.Name == "PlanOptions" {
+						if se, ok := kv.Value.(*ast.SelectorExpr); ok && se.Sel.Name == "PlanOptions" {
+							if x, ok := se.X.(*ast.Ident); ok && info.ObjectOf(x) == recv {
+								inherits = true
+							}
+						}
+					}
+				}
+				key := fi.Name + "|state literal"
+				if n > 1 {
+					key += "#" + itoa(n)
+				}
+				c.Check(rule, key, cl.Pos(), inherits, "%s builds a scratch planner state without the receiver's PlanOptions: statements planned through it (typically the reverse statement) ignore the requested schema qualifier", fi.Name)
+				return true
+			})
+		})
+	}
+
+}
+
+// R17l: the reverse of a guarded attribute change restores the value the guard compared with.
+const ruleTextReverseRestoresGuarded = "forward/reverse agreement on the restored value: in the planners' schema- and table-attribute writers, when a branch is guarded by a comparison of the new value with a field of the planner state (`a.V != s.collate`: the attribute differs from the current/default one), the string fields of the planner state written inside that branch — the value the reverse statement restores — are that same field; writing a sibling field (`s.charset` under a guard on `s.collate`) yields a reverse that is not the inverse"
+
+func checkReverseRestoresGuarded(c *Ctx, rule string) {
+	n := 0
+	for _, pp := range []string{pMysql, pPostgres} {
+		c.AllFuncs(false, func(fi *FuncInfo) {
+			if fi.Pkg.PkgPath != pp || recvName(fi.Decl) != "state" || len(fi.Decl.Recv.List[0].Names) == 0 {
+				return
+			}
+			base := c.Fset.Position(fi.Decl.Pos()).Filename
+			base = base[strings.LastIndex(base, "/")+1:]
+			if !strings.HasPrefix(base, "migrate") {
+				return
+			}
+			info := fi.Info()
+			recv := info.ObjectOf(fi.Decl.Recv.List[0].Names[0])
+			recvField := func(e ast.Expr) string {
+				se, ok := ast.Unparen(e).(*ast.SelectorExpr)
+				if !ok {
+					return ""
+				}
+				id, ok := ast.Unparen(se.X).(*ast.Ident)
+				if !ok || info.ObjectOf(id) != recv {
+					return ""
+				}
+				if _, isField := info.Selections[se]; !isField {
+					return ""
+				}
+				if b, ok := info.TypeOf(se).Underlying().(*types.Basic); !ok || b.Kind() != types.String {
+					return ""
+				}
+				return se.Sel.Name
+			}
+			k := 0
+			ast.Inspect(fi.Decl.Body, func(m ast.Node) bool {
+				ifs, ok := m.(*ast.IfStmt)
+				if !ok {
+					return true
+				}
+				guarded := map[string]bool{}
+				for _, f := range impliedFacts(ifs.Cond, true) {
+					be, ok := ast.Unparen(f.expr).(*ast.BinaryExpr)
+					if !ok || (be.Op != token.NEQ && be.Op != token.EQL) {
+						continue
+					}
+					for _, side := range []ast.Expr{be.X, be.Y} {
+						if g := recvField(side); g != "" {
+							guarded[g] = true
+						}
+					}
+				}
+				if len(guarded) != 1 {
+					return true
+				}
+				var want string
+				for g := range guarded {
+					want = g
+				}
+				// receiver string fields used as arguments of builder writes in the body
+				bad := ""
+				uses := 0
+				var at token.Pos = ifs.Pos()
+				ast.Inspect(ifs.Body, func(q ast.Node) bool {
+					call, ok := q.(*ast.CallExpr)
+					if !ok || !onBuilder(info, call) {
+						return true
+					}
+					for _, a := range call.Args {
+						if g := recvField(a); g != "" {
+							uses++
+							if g != want && bad == "" {
+								bad, at = g, a.Pos()
+							}
+						}
+					}
+					return true
+				})
+				if uses == 0 {
+					return true
+				}
+				k++
+				n++
+				c.funcs[fi.Name] = true
+				c.Check(rule, fmt.Sprintf("%s|branch %d guarded by %s restores %s", fi.Name, k, want, want), at, bad == "", "%s: a branch taken when the new value differs from the planner's %s writes the planner's %s into a statement (the value the reverse restores): the down statement does not restore what the up statement replaced", fi.Name, want, bad)
+				return true
+			})
+		})
+	}
+	if n < 2 {
+		c.Unresolved(rule, "branches guarded by a comparison with a planner-state field that also write one (fewer than 2)")
+	}
+}
